@@ -466,10 +466,10 @@ func Verif_C10_Context() {
 	c10Faults(n, workers, c10CtxCancel, stall)
 }
 
-//verif:entry tier=thorough steps=4000000 preempt=1 cover=repanic,cancelerr,cancelnil
-//verif:doc MapReduce / MapReduceVoid with one fault (panic or cancel in generator/mapper/reducer), 2 items x 2 workers, schedules with at most 1 preemption; same assertions as Verif_C10_Faults.
+//verif:entry tier=thorough steps=4000000 preempt=1 cover=repanic,cancelerr
+//verif:doc MapReduce with one fault out of {generator panic, mapper panic, mapper cancel(err), reducer cancel(err)}, 2 items x 2 workers, all schedules with at most 1 preemption; same assertions as Verif_C10_Faults.
 func Verif_C10_FaultsWide() {
-	c10Faults(2, 2, 1+rt.Choose("fault", c10CtxCancel-1), false)
+	c10Faults(2, 2, []int{c10GenPanic, c10MapPanic, c10MapCancelErr, c10RedCancelErr}[rt.Choose("fault", 4)], false)
 }
 
 type c10TypedErr struct{ code int }
